@@ -63,6 +63,10 @@ func c20App(sp c20Spec) *app.App {
 		// A2: the dead end is reached through the wildcard (e.g. after a free-text input node)
 		"A2": {{Op: codec.HALT}, {Op: codec.INCMP, Sym: "_", Sel: "0"}, {Op: codec.INCMP, Sym: "zz", Sel: "*"}},
 		"F0": {{Op: codec.LOAD, Sym: "term", N: 0}, {Op: codec.MOUT, Sym: "x", Sel: "1"}, {Op: codec.HALT}, {Op: codec.INCMP, Sym: "_", Sel: "0"}},
+		// F1: the function that sets TERMINATE answers with more than the declared size: the request fails, the block stands
+		"F1": {{Op: codec.LOAD, Sym: "term2", N: 1}, {Op: codec.MOUT, Sym: "x", Sel: "1"}, {Op: codec.HALT}, {Op: codec.INCMP, Sym: "_", Sel: "0"}},
+		// F2: "reset all my flags, then set those that apply" (examples/preprocessor): TERMINATE is named in both lists and is set
+		"F2": {{Op: codec.LOAD, Sym: "term3", N: 0}, {Op: codec.MOUT, Sym: "x", Sel: "1"}, {Op: codec.HALT}, {Op: codec.INCMP, Sym: "_", Sel: "0"}},
 		"K0": {{Op: codec.LOAD, Sym: "sf8", N: 0}, {Op: codec.CROAK, N: 8, Mode: true}, {Op: codec.HALT}, {Op: codec.INCMP, Sym: "_", Sel: "0"}},
 	}[sp.Kind]
 	names := []string{"root", "m1", "m2"}
@@ -107,6 +111,12 @@ func c20App(sp c20Spec) *app.App {
 	a.Func("term", func(e *app.Env, sym string, in []byte, l string) (resource.Result, error) {
 		return resource.Result{Content: "t", FlagSet: []uint32{6}}, nil
 	})
+	a.Func("term3", func(e *app.Env, sym string, in []byte, l string) (resource.Result, error) {
+		return resource.Result{Content: "t", FlagSet: []uint32{6}, FlagReset: []uint32{6, 9}}, nil
+	})
+	a.Func("term2", func(e *app.Env, sym string, in []byte, l string) (resource.Result, error) {
+		return resource.Result{Content: "tt", FlagSet: []uint32{6}}, nil
+	})
 	a.WithInputs("1", "0", "zz")
 	return a
 }
@@ -134,10 +144,17 @@ func c20Run(c *mc.Ctx) {
 	// engine.Config.ResetOnEmptyInput: the empty input restarts the session wherever it stands - also when
 	// it is blocked by TERMINATE (the engine's own reset clears the block); histories one shorter
 	backends = append(backends, lsOpts{Mode: "persisted", Backend: "mem", Cfg: engine.Config{ResetOnEmptyInput: true}})
+	// every output size around the final outputs (page + last value is 8..20 bytes in this family): the
+	// boundary "fits exactly"; histories two shorter
+	for sz := uint32(7); sz <= 22; sz++ {
+		if sz != 9 && sz != 14 {
+			backends = append(backends, lsOpts{Mode: "persisted", Backend: "mem", Cfg: engine.Config{OutputSize: sz}})
+		}
+	}
 	// an engine with a first function (engine.WithFirst) that does nothing: ends and blocks are the same
 	backends = append(backends, lsOpts{Mode: "persisted", Backend: "mem", First: true})
 	for depth := 0; depth <= 2; depth++ {
-		for _, kind := range []string{"G0", "G1", "G2", "A0", "A1", "A2", "F0", "K0"} {
+		for _, kind := range []string{"G0", "G1", "G2", "A0", "A1", "A2", "F0", "F1", "F2", "K0"} {
 			for _, fl := range []bool{false, true} {
 				sp := c20Spec{depth, kind, fl}
 				a := c20App(sp)
@@ -145,6 +162,9 @@ func c20Run(c *mc.Ctx) {
 					inputs, n := a.Inputs, n
 					if o.Cfg.ResetOnEmptyInput {
 						inputs, n = append(append([]string{}, inputs...), ""), n-1
+					}
+					if o.Cfg.OutputSize > 0 && o.Cfg.OutputSize != 9 && o.Cfg.OutputSize != 14 {
+						n -= 2
 					}
 					for _, first := range inputs {
 						if !c.Mine() {
